@@ -3,7 +3,7 @@
 Model-based: a 15-line reference model `expected(level, s)` written from the property statement
 (frame/shape/cell: newline = paragraph, vertical tab = line break; paragraph: both = line break,
 read back as vertical tab; run: both stay characters; every other C0 control, and a vertical tab
-in a run, reads back as its _xHHHH_ escape).  Every string of length <= 3 over a 9-symbol alphabet
+in a run, reads back as its _xHHHH_ escape).  Every string of length <= 3 over a 10-symbol alphabet (incl. CR, so CR LF pairs occur)
 (exhaustive) plus seeded class-biased random strings over XML Char + C0 controls are assigned
 through TextFrame.text, Shape.text, _Cell.text, _Paragraph.text and _Run.text onto bodies prepared
 in six prior states, read back at once, the element tree inspected with the harness's own parser
@@ -28,7 +28,7 @@ LEVEL = "exploration"
 EXHAUSTIVE = False
 WATCHDOG_S = {"quick": 600, "thorough": 3600}
 RULE = (
-    "strings: every string of length <= 3 over {a, space, \\n, \\v, \\t, \\x07, &, <, U+1F600} (820 incl. empty, exhaustive) "
+    "strings: every string of length <= 3 over {a, space, \\n, \\v, \\t, \\x07, &, <, U+1F600, \\r} (1111 incl. empty, exhaustive) "
     "plus seeded random strings drawn from 12 classes over XML Char + all C0 controls (1 500 quick / 40 000 thorough); each string "
     "at each of the 5 levels (frame, shape, cell, para, run); prior state of the body: quick = 2 of the 6 states per (level, "
     "string), rotating so all 6 occur; thorough = all states for the exhaustive strings, 1 rotating state per random string. "
@@ -48,7 +48,7 @@ P = xsdkit.NS["p"]
 R = xsdkit.NS["r"]
 LEVELS = ["frame", "shape", "cell", "para", "run"]
 STATES = ["fresh", "notxbody", "three", "brfirst", "fld", "merged"]
-ALPHABET = ["a", " ", "\n", "\v", "\t", "\x07", "&", "<", "\U0001F600"]
+ALPHABET = ["a", " ", "\n", "\v", "\t", "\x07", "&", "<", "\U0001F600", "\r"]
 BATCH = 100
 API = {"frame": "TextFrame.text", "shape": "Shape.text", "cell": "_Cell.text", "para": "_Paragraph.text", "run": "_Run.text"}
 
@@ -88,6 +88,7 @@ TOKENS = {
     "entity-like": ["&amp;", "&lt;", "&#10;", "&#x0B;", "&#0;", "&nbsp;", "&#xD800;", "&#13;", "&", ";"],
     "cdata-like": ["<![CDATA[", "]]>", "]]", "]]&gt;", "<![CDATA[x]]>"],
     "c0-control": [chr(c) for c in range(0x20)],
+    "crlf": ["\r\n", "a\r\nb", "\r", "\n\r", "\r\v", "x\r\n\r\ny"],
     "del-c1": [chr(c) for c in range(0x7F, 0xA0)],
     "specials": ["\ufffd", "\ufffc", "\ufeff", "\u200b", "\u2028", "\u2029", "\ufdd0", "\ud7ff", "\ue000", "\u00a0", "\u3000"],
     "astral": ["\U0001F600", "\U00010000", "\U0010FFFF", "\U0001FFFE", "\U000E0001", "\U0002A6D6"],
